@@ -474,6 +474,9 @@ func uvarint(b []byte) (uint64, int) {
 	for i := 0; i < len(b) && i < 10; i++ {
 		x |= uint64(b[i]&0x7f) << (7 * uint(i))
 		if b[i] < 0x80 {
+			if i == 9 && b[i] > 1 {
+				return 0, -1 // overflows 64 bits
+			}
 			return x, i + 1
 		}
 	}
@@ -792,7 +795,11 @@ func opUnknownInsert(a []string) (string, string, string) {
 	if pos >= len(recs) {
 		out = append(out, rec...)
 	}
-	return protoDecode(t, out), protoDecode(t, b), ""
+	k := ""
+	if len(b) == 0 && t.K == "ptr" {
+		k = "protoPtrToEmptyEncoding" // Unmarshal of empty input into *T gives nil, of any other input &T{…}
+	}
+	return protoDecode(t, out), protoDecode(t, b), k
 }
 
 // encRecRaw keeps the original payload bytes (varint payloads included) but canonical tag/len.
